@@ -72,7 +72,7 @@ def cell_text(row, c, kind):
     return "xyzw"[(row + c) % 4] * 3 if kind == "cat" else "r%04dc%d-%s" % (row, c, "xyzw"[(row + c) % 4] * 3)
 
 
-def frame(pd, first_row, nrows, bad=None, badval=None, kinds=None):
+def _frame(pd, first_row, nrows, bad=None, badval=None, kinds=None):
     """rows first_row..first_row+nrows-1, three text columns with distinctive cells (kinds: per column "str" | "cat").
     bad = (row_index_within_frame, col) puts an un-encodable object (or badval[0], e.g. a missing value) there."""
     kinds = kinds or ["str"] * NCOLS
@@ -90,11 +90,16 @@ def frame(pd, first_row, nrows, bad=None, badval=None, kinds=None):
     return pd.DataFrame(cols)
 
 
-def expected_rows(nrows, kinds=None):
+def rid_of(row):
+    """label of a row in histories whose frames carry a WRITTEN row index (distinct, not an arithmetic progression)"""
+    return row * row * 3 + row + 7000
+
+
+def expected_rows(nrows, kinds=None, widx=False):
     kinds = kinds or ["str"] * NCOLS
     out = []
     for i in range(nrows):
-        out.append(tuple(cell_text(i, c, kinds[c - 1]) for c in range(1, NCOLS + 1)))
+        out.append(tuple(cell_text(i, c, kinds[c - 1]) for c in range(1, NCOLS + 1)) + ((str(rid_of(i)),) if widx else ()))
     return out
 
 
@@ -116,6 +121,9 @@ def read_state(fp, path, datapath=None):
         cols = ["c%d" % c for c in range(1, NCOLS + 1)]
         st["rows"] = [tuple(None if v is None or v != v else str(v) for v in (df[c].iloc[i] for c in cols))
                       for i in range(len(df))]
+        if df.index.name == "rid":
+            # the dataset carries a written row index: its labels are part of every row
+            st["rows"] = [r + (str(int(v)),) for r, v in zip(st["rows"], df.index)]
         st["kv"] = user_kv(pf.key_value_metadata)
         # the handle exposes text: every key and value that is valid UTF-8 comes back as str (also the empty one)
         def _is_text(x):
@@ -148,6 +156,15 @@ def replay_history(args):
         kv0 = {k: conc_value(0, k, init["kv"][k]) for k in KEYS if init["kv"][k] >= 0}
         nrows = init["nrg"] * ROWS_PER_RG
         kinds = init.get("kinds")
+        # every third single-file history writes its frames WITH a named row index (stored as a column, announced in
+        # the pandas metadata; an append then has to store the appended frame's index the same way)
+        widx = (hid % 3 == 1) and not init["meta"]
+
+        def frame(pd_, first_row, n, *a, **k):
+            dfx = _frame(pd_, first_row, n, *a, **k)
+            if widx:
+                dfx.index = pd_.Index([rid_of(first_row + j) for j in range(n)], name="rid", dtype="int64")
+            return dfx
         df0 = frame(pd, 0, nrows, kinds=kinds)
         if init["meta"]:
             ds = os.path.join(d, "ds")
@@ -166,7 +183,7 @@ def replay_history(args):
         if st["open_exc"] or not st["tail"]["strict"]:
             out["ops"].append({"step": 0, "viol": [{"what": "initial write unreadable", "exc": st["open_exc"]}]})
             return out
-        exp_rows = expected_rows(nrows, kinds)
+        exp_rows = expected_rows(nrows, kinds, widx)
         prev_model_flen = init.get("flen")
         i = 1
         step = 0
@@ -266,7 +283,7 @@ def replay_history(args):
                 want_rows, want_kv = None, None
             if raised is None and not want_raise:
                 if opr["kind"] == "app" and opr["k"] > 0:
-                    exp_rows = exp_rows + expected_rows(nrows + opr["k"] * ROWS_PER_RG, kinds)[nrows:]
+                    exp_rows = exp_rows + expected_rows(nrows + opr["k"] * ROWS_PER_RG, kinds, widx)[nrows:]
                     nrows += opr["k"] * ROWS_PER_RG
                 conc = new_conc
             if not tv["lenient"] or st["open_exc"]:
@@ -302,7 +319,9 @@ def replay_history(args):
                     info["drift"] = "model file-length delta %d, real %d" % (md, rd)
             prev_model_flen = obs["flen"]
             # ---------------- trace for TLC ----------------
-            if tv0["strict"] and opr["kind"] != "refuse":
+            # (histories with a written row index have one more column chunk per row group than the trace specification's
+            #  NCols: they are judged by the contract on the real file above, their call traces are not submitted)
+            if tv0["strict"] and opr["kind"] != "refuse" and not widx:
                 tr = abstract_trace(opr, rec.events, tv0, tv, init, before, raised, step)
                 if tr is not None:
                     tr["hid"], tr["step"] = hid, step
